@@ -246,7 +246,7 @@ func TestC02Product(t *testing.T) {
 	rec.Exhaustive = true
 	RunCases(t, rec, func(yield func(*Scenario) bool) {
 		var forms []FormSpec
-		for _, q := range []string{"min", "full", "ext", "plus"} {
+		for _, q := range []string{"min", "full", "ext", "ext0", "ext2", "plus"} {
 			for _, opts := range []int{0, 1, 10} {
 				for _, qttl := range []int{0, 1, 2} {
 					for _, cs := range []string{"", "stale"} {
